@@ -247,7 +247,7 @@ func c03Exec(c *Case) {
 			var r res
 			select {
 			case r = <-done:
-			case <-time.After(30 * time.Second):
+			case <-time.After(90 * time.Second):
 				c.Oracle("serve-hang-"+tag, fmt.Sprintf("%q: Serve did not return on a finite input", l))
 				continue
 			}
